@@ -84,9 +84,9 @@ PROPS = {
     ),
     'C15': dict(
         title='error discipline', proj='proj_err', oracle='c15',
-        quick=[S_('homonym_rand', count=20000), S_('merge_pairs'), S_('merge_rand', count=20000), S_('embed_small'), S_('embed_rand', count=20000),
+        quick=[S_('programs', count=2000, oracle='c05', proj='proj_full'), S_('probes_c15', nc=1, oracle='c05', proj='proj_full'), S_('homonym_rand', count=20000), S_('merge_pairs'), S_('merge_rand', count=20000), S_('embed_small'), S_('embed_rand', count=20000),
                S_('forwards_rand', count=30000), S_('maskflags_exh'), S_('maskflags', count=40000), S_('meta_rand', count=20000)],
-        thorough=[S_('homonym_rand', count=300000), S_('merge_pairs'), S_('merge_pairs_stars'), S_('merge_rand', count=300000), S_('embed_small'),
+        thorough=[S_('programs', count=30000, oracle='c05', proj='proj_full'), S_('probes_c15', nc=1, oracle='c05', proj='proj_full'), S_('homonym_rand', count=300000), S_('merge_pairs'), S_('merge_pairs_stars'), S_('merge_rand', count=300000), S_('embed_small'),
                   S_('embed_pairs', nc=64), S_('embed_rand', count=300000), S_('forwards_rand', count=300000),
                   S_('maskflags_exh'), S_('maskflags', count=300000), S_('mask0'), S_('meta_rand', count=200000)],
         runtime_part=CTOR,
